@@ -43,3 +43,27 @@ Proof. induction e as [a|b l IHl r IHr]; simpl; [reflexivity|now rewrite IHl, IH
 Theorem written_key_atoms l its e : group (map (fun p : text * ptok => tok_of (snd p)) l) = Some its -> Rc its e ->
   Keys.atoms e = tatoms (map (fun p => tok_of (snd p)) l).
 Proof. intros G R. rewrite keys_atoms. now apply written_atoms with (its := its). Qed.
+
+(* ---------- every atom of a parse is a well-formed token value ---------- *)
+Definition atom_wf (a : atom) : Prop :=
+  match a with
+  | AKey k => nonempty k = true /\ all_digits k = true
+  | APkg k _ => exists ds, k = ds ++ [80%N] /\ nonempty ds = true /\ all_digits ds = true
+  | ATime k => exists c, k = [85; 66; c]%N /\ (49 <=? c)%N && (c <=? 51)%N = true
+  end.
+
+Lemma written_atoms_wf l : Forall (fun p : text * ptok => all_ws (fst p) = true /\ ptok_ok (snd p) = true) l ->
+  Forall atom_wf (tatoms (map (fun p => tok_of (snd p)) l)).
+Proof.
+  induction 1 as [|[w p] l [_ Hp] _ IH]; [constructor|]. simpl. apply Forall_app. split; [|exact IH]. simpl in Hp.
+  destruct p as [| |c r|w1 ds w2|w1 ds w2 [[[[d1 c] d2] w3]|]|w1 c w2]; simpl; try (now constructor);
+    simpl in Hp; repeat (apply andb_true_iff in Hp; destruct Hp as [Hp ?]); (constructor; [|constructor]); simpl.
+  - split; assumption.
+  - exists ds. auto.
+  - exists ds. auto.
+  - exists c. split; [reflexivity|]. apply andb_true_iff. split; assumption.
+Qed.
+
+Theorem parsed_atoms_wf l its e : Forall (fun p : text * ptok => all_ws (fst p) = true /\ ptok_ok (snd p) = true) l ->
+  group (map (fun p => tok_of (snd p)) l) = Some its -> Rc its e -> Forall atom_wf (eatoms e).
+Proof. intros Hl G R. rewrite (written_atoms l its e G R). now apply written_atoms_wf. Qed.
